@@ -16,6 +16,10 @@ Section request-order: the order in which the representations are requested from
 enumerated (each kind first; reversed; a diagonalised representation with a non-standard Cartan matrix -
 Tits-Vinberg with free parameters, S C S - directly before hyperbolic_rep / the diagonalised geometric and
 canonical ones) and every representation is requested a second time at the end (same generators).
+Section word-values-owned: what rep[word] / isometries(words) hand out is the CALLER's: for every kind and every word of
+length <= 2 (empty word, single generators, pairs) the value is read, written into in place (overwritten, or used as an
+accumulator acc[...] = acc @ rep[g]) and read again - same value as before; all the other checks then run on the
+representation whose values have been written over.
 Second family: hyperbolic triangle groups, fixed points of the three rotations vs the angles pi/p,
 pi/q, pi/r (mc/oracle/hyp.py).
 """
@@ -399,6 +403,56 @@ def case_group(case):
         sgl = all(len(x) == 1 for x in nms)
         return [mat(reps[k][W((i,), nms, sgl)]) for i in range(n)]
     first = {k: gens_of(k) for k in kinds}
+
+    # ---- the values handed out belong to the caller: reading rep[word], writing into the returned matrix in place and
+    #      reading again gives the value the representation had before (all later checks run on the representation after this)
+    handout = case.get("handout")
+    if handout:
+        for k in kinds:
+            R = reps[k]
+            if R is None:
+                continue
+            nms = names_of[k]
+            sgl = all(len(x) == 1 for x in nms)
+            kb = k.split("/")[0]
+
+            def raw(x):
+                return x.proj_data if hasattr(x, "proj_data") else x
+
+            def hostile(a, w):
+                # in-place use of an array the caller was given
+                if not isinstance(a, np.ndarray) or not a.flags.writeable:
+                    return
+                if handout == "accumulate":
+                    g = mat(R[W(((w[-1] + 1) % n if w else 0,), nms, sgl)])
+                    a[...] = (a @ g if a.ndim == 2 else a @ g[None]) * 2.0 + 1.0
+                else:
+                    a[...] = 99.0
+            for w in words_upto(n, 2):
+                lw = W(w, nms, sgl)
+                a = raw(R[lw])
+                before = np.array(a, dtype=float, copy=True)
+                hostile(a, w)
+                after = np.asarray(raw(R[lw]), dtype=float)
+                t += 2
+                if after.shape != before.shape or not (np.max(np.abs(after - before)) <= 1e-9 * scale_of([before])):
+                    V.add("ownership/word-value-aliased/%s/len=%s" % (kb, (str(len(w)) if len(w) < 2 else ">=2")),
+                          "%s: rep[%r] was %r; after the caller wrote into the returned matrix (%s) rep[%r] is %r"
+                          % (k, lw, before.tolist(), handout, lw, after.tolist()))
+            if k == "hyperbolic":
+                ws = [W(w, nms, sgl) for w in words_upto(n, 2) if len(w) >= 1]
+                a = raw(R.isometries(list(ws)))
+                before = np.array(a, dtype=float, copy=True)
+                hostile(a, (0,))
+                after = np.asarray(raw(R.isometries(list(ws))), dtype=float)
+                t += 2
+                if after.shape != before.shape or not (np.max(np.abs(after - before)) <= 1e-9 * scale_of([before])):
+                    V.add("ownership/word-value-aliased/hyperbolic/isometries", "isometries(%r) differs after the caller wrote into the "
+                          "array of the first answer (%s)" % (ws, handout))
+            owned("handout/" + kb)
+        if any(key.startswith("ownership/word-value-aliased/") for key in V.d):
+            # the representation objects have been damaged through the alias: the remaining checks would only repeat that
+            return {"v": V.out(), "t": t, "o": "handout-aliased", "nt": True}
 
     # ---- geometric and canonical representation
     geo, can = reps["geometric"], reps["canonical"]
@@ -854,6 +908,8 @@ def run(ctx):
                "generator_style, whatever the group's own names are")
     ctx.assume("a representation is a function of the group and of the arguments of the request: requested again after any other "
                "requests to the same group object it has the same generators (1e-9 relative)")
+    ctx.assume("a matrix (or Isometry) returned by rep[word] / rep.isometries(words) is the caller's: writing into it in place does not "
+               "change what the representation returns for any word afterwards (section word-values-owned)")
     ctx.assume("hyperbolic_rep is requested only when the oracle's cosine form has signature (d,1), eigenvalue margin 1e-6")
     ctx.assume("'preserves the form' is accepted in either matrix convention (M^T B M = B or M B M^T = B), the same "
                "for all words; O(d,1) membership and the diagonal +-1 forms are convention independent")
@@ -981,6 +1037,40 @@ def run(ctx):
                               [2, 3, 0] if q else [2, 3, 4, 0]),
                "an order naming a kind the group does not have (no infinite label, degenerate form, not hyperbolic)": "trivial case"},
       chunk=32)
+    # ---- values handed out by rep[word] are written into by the caller
+    HANDOUTS = ["overwrite", "accumulate"]
+    cases = []
+    for l in labs:
+        for mm in encodings(sym_matrix(2, [l])):
+            for h in HANDOUTS:
+                for c in route_cases(mm, ROUTES):
+                    c.update({"Lw": 2, "repeat": True, "handout": h})
+                    cases.append(c)
+    k = 0
+    for m in all_matrices(3, sub if q else labs):
+        full = all((x in small) for r in m for x in r if x != 1)
+        for mm in encodings(m):
+            for h in (HANDOUTS if full else [HANDOUTS[k % 2]]):
+                for c in route_cases(mm, [ROUTES[(k // 2) % len(ROUTES)]]):
+                    c.update({"Lw": 2, "repeat": True, "handout": h})
+                    cases.append(c)
+            k += 1
+    for i, m in enumerate(all_matrices(4, [2, 3, 0])):
+        if q and i % 3:
+            continue
+        for c in route_cases(encodings(m)[-1], [ROUTES[(k // 2) % len(ROUTES)]]):
+            c.update({"Lw": 2, "repeat": True, "handout": HANDOUTS[k % 2]})
+            cases.append(c)
+        k += 1
+    P("word-values-owned", "checks.c08:case_group", cases,
+      domains={"the caller": {"overwrite": "a = rep[word]; a[...] = 99", "accumulate": "acc = rep[word]; acc[...] = 2 (acc @ rep[g]) + 1"},
+               "words read, written into and read again": "all words of length <= 2 over the generators (empty word, generators, pairs), for "
+                                                          "every kind of representation the group offers (Isometry values: their proj_data); "
+                                                          "hyperbolic: also the array of isometries(all words of length 1..2)",
+               "then": "all checks of the other sections on the same representation objects, every representation requested again at the end",
+               "matrices": "rank 2: labels %r x both ways x 5 routes; rank 3: labels %r x both ways, other matrices over %r one way (cycled); "
+                           "%s rank 4 matrix over [2, 3, 0], infinity written -1; route cycled"
+                           % (labs, small, sub if q else labs, "every third" if q else "every")}, chunk=16)
     # ---- rank 4
     labs4 = [2, 3, 4, 0] if q else [2, 3, 4, 5, 6, 0]
     cases = []
